@@ -446,3 +446,31 @@ func AfterOp[T any](v T) T {
 	PointAt(0)
 	return v
 }
+
+// OnceFunc, OnceValue and OnceValues replace their sync namesakes: while the
+// wrapped function runs the task is not pre-empted at inner points (as for
+// once.Do), because a second caller would park inside the real sync.Once.
+
+func OnceFunc(f func()) func() {
+	return sync.OnceFunc(func() {
+		Locked()
+		defer Unlocking()
+		f()
+	})
+}
+
+func OnceValue[T any](f func() T) func() T {
+	return sync.OnceValue(func() T {
+		Locked()
+		defer Unlocking()
+		return f()
+	})
+}
+
+func OnceValues[T1, T2 any](f func() (T1, T2)) func() (T1, T2) {
+	return sync.OnceValues(func() (T1, T2) {
+		Locked()
+		defer Unlocking()
+		return f()
+	})
+}
